@@ -775,6 +775,31 @@ Theorem c13_ordered_set_determined :
 Proof. intros K kltb Hi Ht Hto. exact (@oset_of_list_spec K kltb Hi Ht Hto). Qed.
 Print Assumptions c13_ordered_set_determined.
 
+(* crash_info.possible_bit_flips: whatever order the operands of the crashing instruction contributed their registers in (and however
+   often one register occurs), the array is the same; through a hash container it is not (seeded change C13-2) *)
+Theorem c13_bitflip_candidates_order_independent :
+  forall (K B : Type) (kltb : K -> K -> bool),
+  (forall a, kltb a a = false) ->
+  (forall a b c, kltb a b = true -> kltb b c = true -> kltb a c = true) ->
+  (forall a b, kltb a b = false -> kltb b a = false -> a = b) ->
+  forall (cands : K -> list B) (base : list B) (l1 l2 : list K), Permutation l1 l2 ->
+  bitflip_candidates kltb cands base l1 = bitflip_candidates kltb cands base l2.
+Proof.
+  intros K B kltb Hi Ht Hto cands base l1 l2 H. unfold bitflip_candidates.
+  rewrite (@oset_of_list_perm K kltb Hi Ht Hto l1 l2 H). reflexivity.
+Qed.
+Print Assumptions c13_bitflip_candidates_order_independent.
+
+Theorem c13_bitflip_candidates_hash_refuted :
+  exists (i1 i2 : list Z -> list Z) (regs : list Z),
+    (forall x, Permutation (i1 x) x) /\ (forall x, Permutation (i2 x) x) /\
+    bitflip_candidates_hash i1 (fun r => [r]) [] regs <> bitflip_candidates_hash i2 (fun r => [r]) [] regs.
+Proof.
+  exists (fun x => x), (@rev _), [1; 2].
+  split; [intros; apply Permutation_refl|]. split; [intros; apply Permutation_sym, Permutation_rev|]. cbn. discriminate.
+Qed.
+Print Assumptions c13_bitflip_candidates_hash_refuted.
+
 Example c13_nonvacuous_ordered_set :
   (* rcx, rax, rcx, rdx as byte strings *)
   oset_of_list bytes_ltb [[114; 99; 120]; [114; 97; 120]; [114; 99; 120]; [114; 100; 120]] = [[114; 97; 120]; [114; 99; 120]; [114; 100; 120]] /\
@@ -803,7 +828,7 @@ Theorem c13_ordered_sites_modelled :
 Proof. split; reflexivity. Qed.
 Print Assumptions c13_ordered_sites_modelled.
 
-(* ... and the six pieces of code that Model.cert_of and C13/Unloaded.v model read today exactly as they did when the model was written *)
+(* ... and the seven pieces of code that Model.cert_of and C13/Unloaded.v model read today exactly as they did when the model was written *)
 Theorem c13_pinned_code_modelled :
   RM.Gen.C13Sites.pinned_model_code = map fst modelled_pinned_code.
 Proof. reflexivity. Qed.
